@@ -556,9 +556,55 @@ def location_family(ctx, prog, rep):
             v = False
             break
     rep.analysed_item("SemverError::location interpreted on %d (text, offset) classes for reachability of its panic sites" % len(rows))
+    if v is True:
+        v = _offsets_premise(prog, rep, location)
     return Family("location", "D-LOC", "no (text, offset) class of the location() table reaches a panic; offsets are 0, len or a "
                   "stream position of the caller's string (C17 E2), hence <= len and on a char boundary",
                   ["SemverError::location"], v, [r["cov"] for r in rows if "cov" in r], why_bad="location() panics for a valid offset")
+
+
+def _offsets_premise(prog, rep, location):
+    """D-LOC's premise: the offsets location() receives are 0, len or stream positions. When an error constructor of an
+    entry point stores something else that can fall inside a multi-byte character (a non-zero constant, len minus a
+    constant) and location() panics at such offsets, the two sites together are a reachable panic."""
+    ok_terms = {"const 0", "len(caller)", "ptr(errpos)-ptr(caller)"}
+    odd = []
+    for key in ("Version::parse", "range::Range::parse"):
+        if not prog.has_body(key):
+            continue
+        try:
+            rows = E.entry_table(prog, key)
+        except Inconclusive:
+            return True       # the constructors are judged by C17; nothing is added here
+        for r in rows:
+            if r["status"] != "ok":
+                continue
+            try:
+                d = E.decode_error(prog, r["interp"], r["result"])
+            except Inconclusive:
+                continue
+            if d is None or d["offset"] in ok_terms:
+                continue
+            t = d["offset"]
+            if re.fullmatch(r"const [1-9]\d*", t) or re.fullmatch(r"len\(caller\)-\d+", t):
+                odd.append((key, t))
+    if not odd:
+        return True
+    try:
+        rows = location.table(prog, 3, inside=True)
+    except Inconclusive:
+        return True
+    rep.analysed_item("offset premise of D-LOC: %d error constructors store an offset that can fall inside a character (%s); "
+                      "location() interpreted on %d such (text, offset) classes" % (len(odd), ", ".join(sorted(set(t for _, t in odd))), len(rows)))
+    for r in rows:
+        if r["status"] == "panic":
+            key, t = odd[0]
+            rep.fail("D-LOC", "SemverError::location|D-LOC|panic at an offset inside a character",
+                     "%s stores the span offset `%s`, which falls inside a multi-byte character for suitable inputs, and location() "
+                     "panics there (text class %s, offset %d): %s" % (key, t, r["word"], r["offset"], r["error"]),
+                     example="an over-long input with a two-byte character across the stored offset, then err.location()")
+            return False
+    return True
 
 
 def desugar_family(prog, rep):
